@@ -581,7 +581,7 @@ def gen_gfa2_semantic(rng, nseg=None):
     pairs) with CIGARs consistent with the intervals and rich in I/D; plus a few groups over them."""
     d = Gfa2Doc()
     n = nseg or rng.randint(2, 5)
-    names = rng.sample(["a", "b", "c", "d", "e1", "s9"], n)
+    names = rng.sample(["a", "b", "c", "d", "ee1", "s9"], n)
     for s in names:
         L = rng.randint(8, 18)
         d.segments.append({"sid": s, "slen": L, "seq": rseq(rng, L) if rng.random() < 0.5 else "*", "tags": []})
